@@ -37,6 +37,7 @@ type scenario struct {
 	names   []string
 	t0      time.Time
 	noClock bool
+	tick    time.Duration
 	mu      sync.Mutex
 	evs     []J // events of the current step in the order they happened
 	extra   func() J
@@ -101,7 +102,15 @@ func (s *scenario) now() int {
 	if s.noClock {
 		return 0
 	}
-	return int(time.Since(s.t0) / tickDur)
+	return int(time.Since(s.t0) / s.tickLen())
+}
+
+// tickLen is the scenario's clock unit: tickDur unless the scenario judges finer instants (tick).
+func (s *scenario) tickLen() time.Duration {
+	if s.tick > 0 {
+		return s.tick
+	}
+	return tickDur
 }
 
 type schedStep struct {
@@ -197,7 +206,7 @@ func (s *scenario) apply(st schedStep) error {
 		if n < 1 {
 			n = 1
 		}
-		time.Sleep(time.Duration(n) * tickDur)
+		time.Sleep(time.Duration(n) * s.tickLen())
 	default:
 		return fmt.Errorf("unknown step %q", st.A)
 	}
